@@ -10,3 +10,82 @@ EXTRA_CHECKS = _m.EXTRA_CHECKS
 EXPECTED_MIN_OBLIGATIONS = _m.EXPECTED_MIN_OBLIGATIONS
 TRUSTED = _m.TRUSTED
 ASSUMPTIONS = _m.ASSUMPTIONS + ["the property's clause 'a later execution returns exactly what a run on an empty backend would' is a history property; what is proved is the per-function kernel: commit-point invariant of record_call_node and recovery postcondition of record_value from any entry state"]
+
+
+# ------------------------------------------------------------------------------------------------ the retry wrapper itself (redun/backends/db/__init__.py: db_retry)
+from pvc.smt import *
+from pvc.core import Module, RaiseEx
+DB = "redun/backends/db/__init__.py"
+
+
+def lib_func(e, n, st, old):
+    """func(self, *args, **kwargs): one attempt of the wrapped operation; it may fail with a transient OperationalError"""
+    st.ghost["ncalls"] = T(INT, f"(+ {st.ghost['ncalls'].s} 1)")
+    if e.branch(e.opaque("attempt_fails", BOOL), st):
+        raise RaiseEx("OperationalError", None, n.lineno)
+    return e.opaque("operation_result")
+
+
+def lib_rollback(e, n, st, old):
+    st.ghost["nrb"] = T(INT, f"(+ {st.ghost['nrb'].s} 1)")
+    return T(NONE, "none")
+
+
+def lib_retry_loop(e, n, st, old):
+    """retry_loop(self, *args, **kwargs): through its contract below -- it returns the operation's result or re-raises the OperationalError"""
+    h = e.field(st, "_db_retries_active")
+    e.oblige(f"{e.cur}/at[retry_loop-call].0", "at", st, T(BOOL, f"(select {h.s} {st.env['self'].s})"), n.lineno)     # the flag is set while the loop runs
+    if e.branch(e.opaque("gives_up", BOOL), st):
+        raise RaiseEx("OperationalError", None, n.lineno)
+    return e.opaque("operation_result")
+
+
+def lib_getattr_active(e, n, st, old):
+    if ast_unparse(n.args[1]) == "'_db_retries_active'":
+        h = e.field(st, "_db_retries_active")
+        return T(BOOL, f"(select {h.s} {st.env['self'].s})")
+    return NotImplemented
+
+
+def ast_unparse(x):
+    import ast
+    return ast.unparse(x)
+
+
+SKIP = {k: (lambda e, n, st, old: e.opaque("ignored")) for k in ("self.logger.error(", "self.logger.warning(", "time.sleep(", "min(")}
+G_RETRY = {"ncalls": INT, "nrb": INT}
+retry_contracts = {
+ # a retried operation called from inside another retried operation neither rolls back nor retries: a rollback there would discard the
+ # uncommitted writes of the outer operation, which would then go on and commit without them
+ "db_retry.wrapper": dict(where=f"{DB}:db_retry.wrapper", params={"self": REF, "args": OBJ, "kwargs": OBJ}, ghost=G_RETRY,
+    lib=dict(SKIP, **{"func(": lib_func, "retry_loop(": lib_retry_loop, "self.session.rollback()": lib_rollback, "getattr(": lib_getattr_active}),
+    modifies=["ncalls", "nrb", "_db_retries_active"],
+    ensures=["nrb == old(nrb)", "self._db_retries_active == old(self._db_retries_active)", "implies(old(self._db_retries_active), ncalls == old(ncalls) + 1)"],
+    exc_ensures=["nrb == old(nrb)", "self._db_retries_active == old(self._db_retries_active)", "implies(old(self._db_retries_active), ncalls == old(ncalls) + 1)"]),
+ # the outermost operation: every failed attempt is rolled back before the next attempt starts; the error is re-raised only after the configured number of retries
+ "db_retry.retry_loop": dict(where=f"{DB}:db_retry.retry_loop", params={"self": REF, "args": OBJ, "kwargs": OBJ}, ghost=G_RETRY,
+    lib=dict(SKIP, **{"func(": lib_func, "self.session.rollback()": lib_rollback}),
+    requires=["self._db_retries >= 0", "self.session"], modifies=["ncalls", "nrb", "_db_retries_attempt"],
+    loops={0: dict(inv=["ncalls - old(ncalls) == nrb - old(nrb)", "self._db_retries_attempt == nrb - old(nrb)", "self._db_retries_attempt <= self._db_retries"])},
+    ensures=["ncalls - old(ncalls) == nrb - old(nrb) + 1", "nrb - old(nrb) <= self._db_retries"],
+    exc_ensures=["ncalls - old(ncalls) == nrb - old(nrb)", "nrb - old(nrb) == self._db_retries + 1"]),
+}
+RETRY_MODULE = Module(fields={"_db_retries_active": BOOL, "_db_retries_attempt": INT}, stable={"_db_retries": INT}, declare_stable=True, contracts=retry_contracts)
+MODULES = list(MODULES) + [(RETRY_MODULE, ["db_retry.wrapper", "db_retry.retry_loop"])]
+
+
+def bounded_transient_faults(tier, seed):
+    from pvc import bounded
+    return [bounded.run("C22", "transient-faults", rule="three recording workloads (nested containers with subvalues, file results, a failing task under catch); one transient OperationalError replaces the commit at "
+                        "every commit position in turn (about 100 positions); every faulted run returns the clean run's value and leaves exactly the clean run's records: nothing lost, nothing duplicated")]
+
+
+EXTRA_CHECKS = list(EXTRA_CHECKS) + [bounded_transient_faults]
+EXPECTED_MIN_OBLIGATIONS = EXPECTED_MIN_OBLIGATIONS + 15
+TRUSTED = list(TRUSTED) + ["the wrapped operation as one call that either returns or raises OperationalError (db_retry contracts)", "Session.rollback discards exactly the uncommitted writes (A-ORM)"]
+ASSUMPTIONS = list(ASSUMPTIONS) + [
+    "retry half: the contracts on db_retry state the protocol (a nested retried call neither rolls back nor retries; the outermost call rolls back after every failed attempt, re-raises only after the configured number "
+    "of retries, and always clears its activity flag); that re-running a whole operation after a rollback writes exactly what one clean run writes is a statement about each operation's body and is compared by the "
+    "bounded fault enumeration only",
+    "faults are injected instead of a commit (the transaction did not happen); a commit that succeeded on the server but was reported as failed is outside",
+]
